@@ -681,6 +681,12 @@ class FFTFunc(Op):
             d["axes"] = [tape.draw(info.ndim, "fft.ax")]
             if info.ndim >= 2 and tape.chance(1, 2, "fft.n2"):
                 d["axes"] = [0, 1]
+            if tape.chance(1, 4, "fft.s_only"):
+                # SciPy: `s` without `axes` means the LAST len(s) axes
+                k = 1 + tape.draw(min(info.ndim, 2), "fft.s_len")
+                d.pop("axes")
+                d["s"] = [max(2, info.shape[info.ndim - k + i] + [0, 1, -1][tape.draw(3, f"fft.s{i}")])
+                          for i in range(k)]
         else:
             d["axis"] = tape.draw(info.ndim, "fft.ax")
             if tape.chance(1, 4, "fft.neg"):
@@ -702,6 +708,8 @@ class FFTFunc(Op):
             kw["norm"] = desc["norm"]
         if "n" in desc:
             kw["n"] = desc["n"]
+        if "s" in desc:
+            return f(x, s=tuple(desc["s"]), **kw)
         if "axes" in desc:
             return f(x, axes=tuple(desc["axes"]), **kw)
         return f(x, axis=desc["axis"], **kw)
